@@ -431,6 +431,12 @@ def probe_vanishing(chk, h, d):
         chk.tie_broken("vanishing probe", "harness rc=%d %s" % (rc, err[-300:]))
 
 
+def source_shape(d):
+    """the structural flags the translator read from the source (as compiled into the extracted model)"""
+    rc, out, err = pv.sh([d], input="shape\n", timeout=60)
+    return dict(kv.split("=") for kv in out.split()[1:]) if out.startswith("SHAPE") else {}
+
+
 def probe_near_degenerate(chk, h, d):
     """corpus case (minimised): two levels 6e-9 apart reached by the same operator; weight is lost in the term lists"""
     fam, text, qd, tr = NEARDEG_MIN
@@ -442,7 +448,14 @@ def probe_near_degenerate(chk, h, d):
     a, b, tol = r
     chk.case("ND " + text, "near-degenerate-corpus %s" % ("agrees" if abs(a - b) <= tol else "differs"), nontrivial=True,
              sample={"corpus": "near-degenerate levels", "impl": str(a), "oracle": str(b), "tolerance": tol})
-    if abs(a - b) > tol:
+    if abs(a - b) > tol and source_shape(d).get("add_term_retries") == "true":
+        # the source has the repaired add_term: a difference here is not the known loss of term weight
+        chk.violation("value: chi differs from its definition",
+                      "near-degenerate corpus case (two sites, hopping 3e-9, U=1, symmetries ignored) chi_0000(2,1;1) = %s, the documented definition gives %s "
+                      "(|diff| %.3g, tolerance %.3g)" % (a, b, abs(a - b), tol),
+                      {"harness": "h_c02", "variant": "real", "family": fam, "scenario": text, "quad": list(qd), "triple": list(tr),
+                       "impl": str(a), "oracle": str(b), "tolerance": tol})
+    elif abs(a - b) > tol:
         chk.violation(NEARDEG_KEY,
                       "two sites with equal levels and hopping 3e-9 (levels 6e-9 apart), U=1 on one site, symmetries ignored: chi_0000(2,1;1) = %s, the documented "
                       "definition gives %s (|diff| %.3g, tolerance %.3g incl. the 1e-8 pole merging): terms are lost in TermList::add_term when the reduced term, "
@@ -480,6 +493,16 @@ def report(chk, first, h, d):
         chk.violation(VANISHING_KEY if van else "table-length: non-vanishing component",
                       "family %s quad %r: compute(clear=%d, %d frequencies) returned a table of length %d" % (s.fam, qd, clear, len(s.triples), tsize),
                       replay_obj(s, qd, tr, {"clear": clear, "observed_table_length": tsize}))
+    if "value-nosep" in first and source_shape(d).get("add_term_retries") == "true":
+        first.setdefault("value", first["value-nosep"])
+    elif "value-nosep" in first:
+        s, qd, tr, ond, orc, tol = first["value-nosep"]
+        chk.violation(NEARDEG_KEY,
+                      "family %s quad %r (%s) frequencies %r: TwoParticleGF returns %s, the documented definition gives %s (|diff| %.3g, tolerance %.3g); "
+                      "the poles of this component violate the separation hypothesis of chi_termlist_no_loss (some are between 1e-8/4 and 2e-8 apart): "
+                      "terms are lost in TermList::add_term" % (s.fam, qd, idxpat(qd), tr, ond, orc, abs(ond - orc), tol),
+                      replay_obj(s, qd, [str(x) for x in tr], {"impl": str(ond), "oracle": str(orc), "tolerance": tol,
+                                                               "proposed_fix": "proposed/fix-termlist-refused-insert.diff"}))
     if "value" in first:
         s, qd, tr, ond, orc, tol = first["value"]
         text = shrink_value(s, qd, tr, h, d)
@@ -490,14 +513,6 @@ def report(chk, first, h, d):
                       "family %s quad %r (%s) frequencies %r (resonance pattern %s): TwoParticleGF returns %s, the documented definition gives %s (|diff| %.3g, tolerance %.3g)"
                       % (s.fam, qd, idxpat(qd), tr, pat, r[0], r[1], abs(r[0] - r[1]), r[2]),
                       replay_obj(t, qd, [str(x) for x in tr], {"impl": str(r[0]), "oracle": str(r[1]), "tolerance": r[2], "unshrunk_scenario": s.text}))
-    if "value-nosep" in first:
-        s, qd, tr, ond, orc, tol = first["value-nosep"]
-        chk.violation(NEARDEG_KEY,
-                      "family %s quad %r (%s) frequencies %r: TwoParticleGF returns %s, the documented definition gives %s (|diff| %.3g, tolerance %.3g); "
-                      "the poles of this component violate the separation hypothesis of chi_termlist_no_loss (some are between 1e-8/4 and 2e-8 apart): "
-                      "terms are lost in TermList::add_term" % (s.fam, qd, idxpat(qd), tr, ond, orc, abs(ond - orc), tol),
-                      replay_obj(s, qd, [str(x) for x in tr], {"impl": str(ond), "oracle": str(orc), "tolerance": tol,
-                                                               "proposed_fix": "proposed/fix-termlist-refused-insert.diff"}))
     if "table" in first:
         s, qd, tr, clear, tab, ond = first["table"]
         chk.violation("table: entry differs from on-demand evaluation",
@@ -547,7 +562,7 @@ def generate(chk, variant, families, nq, ntr):
 
 def run(chk):
     quick = chk.tier == "quick"
-    ok, log = chk.prove(["extract/Extract_C02.vo"])
+    ok, log = chk.prove(["extract/Extract_C02.vo", "extract/Extract_ED.vo"])
     chk.trusted += ["translator/gen_c02.py and translator/cexpr.py",
                     "extraction: ExtrOcamlBasic, ExtrOcamlNatInt, ExtrOCamlFloats; no Extract Constant of our own",
                     "ocaml/driver_c02.ml (parsing, building the model input from the dump, printing, tolerance scales), harness/h_c02.cpp, harness/ed_common.h",
@@ -583,6 +598,7 @@ def run(chk):
                 "a case is distinct by (scenario text, quadruple, triple, purge) and non-trivial when the component vanishes by symmetry or the exact value is "
                 "not numerically zero; term-list cases are non-trivial when the part has terms")
     chk.extra["scenarios"] = len(scs)
+    chk.extra["source_shape"] = source_shape(d)
 
 
 def replay(chk, path):
